@@ -4,7 +4,6 @@ import (
 	"fmt"
 	"math/rand"
 
-	"github.com/nspcc-dev/neo-go/pkg/io"
 	"github.com/nspcc-dev/neo-go/pkg/network/payload"
 )
 
@@ -98,6 +97,26 @@ func (r *run) randomScenario(rng *rand.Rand, heights, maxD, steps int) error {
 			}
 		case x < 42:
 			_, err = r.exec(Op{Op: "svcblock", N: n})
+		case x < 50:
+			// the votes of a recent height reach one node (most of them, in some order)
+			if mtop() == 0 {
+				continue
+			}
+			h := max(1, mtop()-rng.Intn(3))
+			if f := r.inForce(h); len(f) > 0 && rng.Intn(5) < 3 {
+				// ... the node that is the first sender of that height, if a node holds that key
+				k := f[(int(w.base)+h)%len(f)]
+				for i, y := range w.nodes {
+					if y.key == k-1 {
+						n = i + 1
+					}
+				}
+			}
+			for _, f := range rng.Perm(nn) {
+				if r.sentBy[msgKey{f, "vote", w.base + uint32(h)}] != nil && rng.Intn(5) > 0 && err == nil {
+					_, err = r.exec(Op{Op: "deliver", N: n, T: "vote", From: f + 1, H: h})
+				}
+			}
 		case x < 72:
 			if k, ok := honest(); ok {
 				_, err = r.exec(Op{Op: "deliver", N: n, T: k.t, From: k.from + 1, H: int(k.h - w.base)})
@@ -202,8 +221,10 @@ func (r *run) randomScenario(rng *rand.Rand, heights, maxD, steps int) error {
 				}
 				err = r.deliver(Op{Op: "corrupt"}, nd_, c, "corrupt")
 			}
-		case x < 99:
-			_, err = r.exec(Op{Op: "restart", N: n})
+		case x < 98:
+			if rng.Intn(3) == 0 {
+				_, err = r.exec(Op{Op: "restart", N: n})
+			}
 		default:
 			// a validated root of height 0 / of a height far beyond the chain
 			rec := w.localRoot(0)
@@ -217,8 +238,6 @@ func (r *run) randomScenario(rng *rand.Rand, heights, maxD, steps int) error {
 					set[i] = k - 1
 				}
 				rec.Witness = append(rec.Witness, w.multisig(rec, set, mOf(len(set)), set[:mOf(len(set))]))
-				bw := io.NewBufBinWriter()
-				_ = bw
 				err = r.deliver(Op{Op: "edge"}, nd_, w.rootMsg(set[0], rec), "adv")
 			}
 		}
